@@ -605,3 +605,111 @@ func c09ClockSkew(w *core.WorkerCtx) {
 		world.NontrivFor("C09", fmt.Sprintf("clock-skew/%v/admitted=%v", skew, derr == nil))
 	}
 }
+
+// c09ForgedSeals: the seal of a vertex (hash and sealing signature over sealer, creation time, parents, weight and the
+// transaction hash) is checked for every kind of transaction the vertex may carry - a plain transfer, a contract, a
+// contract countersigned by its receiver, with and without spice. Copies whose seal does not recompute (one signed
+// vertex field changed, hash or signature altered) are offered on known parents and before their parent.
+func c09ForgedSeals(w *core.WorkerCtx) {
+	rng := core.Rand(w.Seed, "forgedseals", w.Batch)
+	desc := fmt.Sprintf("c09 vertices whose seal does not recompute, for every kind of transaction seed=%d batch=%d", w.Seed, w.Batch)
+	w.Mark("%s", desc)
+	world := ledger.NewWorld(rng, w.R, []string{"C09"}, allSnapOracles, desc)
+	defer world.Close()
+	if _, err := ledger.Setup(world, ledger.Profile{Nodes: 1, Users: 4, SupplyClass: 0, Delivery: "lockstep"}); err != nil {
+		w.R.Inconc("setup failed: " + err.Error())
+		return
+	}
+	n := world.Nodes[0]
+	u := world.Users
+	for i := 1; i < len(u); i++ {
+		t := world.NewTrx(u[0], u[i].Addr, spice.Melange{Currency: 100}, nil)
+		world.Propose(n, &t, "fund")
+	}
+	kinds := []string{"transfer", "contract", "countersigned", "countersigned+spice"}
+	type alter struct {
+		name string
+		f    func(v *accountant.Vertex, older ledger.H)
+	}
+	alters := []alter{
+		{"hash", func(v *accountant.Vertex, _ ledger.H) { v.Hash[5] ^= 0x10 }},
+		{"signature", func(v *accountant.Vertex, _ ledger.H) { v.Signature[7] ^= 0x01 }},
+		{"weight", func(v *accountant.Vertex, _ ledger.H) { v.Weight += 1 << 40 }},
+		{"created-at", func(v *accountant.Vertex, _ ledger.H) { v.CreatedAt = v.CreatedAt.Add(time.Second) }},
+		{"left-parent", func(v *accountant.Vertex, older ledger.H) { v.LeftParentHash = older }},
+		{"sealer", func(v *accountant.Vertex, _ ledger.H) { v.SignerPublicAddress = world.Sealers[1].Addr }},
+	}
+	for round := 0; round < w.Pick(2, 8); round++ {
+		for _, kind := range kinds {
+			for _, al := range alters {
+				s := n.Prev
+				var tip, older ledger.H
+				var wgt uint64
+				found := false
+				for h := range s.Leaves {
+					if v, ok := s.Vertex(h); ok && v.Weight >= wgt {
+						tip, wgt, found = h, v.Weight, true
+					}
+				}
+				if !found {
+					return
+				}
+				if tv, ok := s.Vertex(tip); ok {
+					older = tv.LeftParentHash
+				}
+				from, to := u[1+rng.Intn(3)], u[1+rng.Intn(3)]
+				if from == to {
+					to = u[0]
+				}
+				var t transaction.Transaction
+				switch kind {
+				case "transfer":
+					t = world.NewTrx(from, to.Addr, spice.Melange{SupplementaryCurrency: uint64(1 + rng.Intn(100))}, nil)
+				case "contract":
+					t = world.NewTrx(from, to.Addr, spice.Melange{}, []byte("contract"))
+				case "countersigned":
+					t = world.NewTrx(from, to.Addr, spice.Melange{}, []byte("countersigned contract"))
+					ledger.CounterSign(&t, to)
+				default:
+					t = world.NewTrx(from, to.Addr, spice.Melange{SupplementaryCurrency: uint64(1 + rng.Intn(100))}, []byte("paid countersigned contract"))
+					ledger.CounterSign(&t, to)
+				}
+				good := ledger.ForgeVertex(world.Sealers[0], t, tip, tip, wgt+1, world.Now())
+				bad := *ledger.CloneVertex(&good)
+				al.f(&bad, older)
+				entry := "gossip"
+				var err error
+				if (round+len(al.name))%2 == 1 && al.name != "left-parent" {
+					// before its parent: the forged copy names a parent the node gets only afterwards
+					entry = "orphan-replay"
+					pt := world.NewTrx(u[0], u[1].Addr, spice.Melange{}, []byte("parent"))
+					p := ledger.ForgeVertex(world.Sealers[1], pt, tip, tip, wgt+1, world.Now())
+					good = ledger.ForgeVertex(world.Sealers[0], t, p.Hash, p.Hash, wgt+2, world.Now())
+					bad = *ledger.CloneVertex(&good)
+					al.f(&bad, older)
+					err = world.Deliver(n, &bad, "vertex with a seal that does not recompute, before its parent")
+					world.Deliver(n, &p, "the parent")
+					for k := 0; k < 4; k++ {
+						world.Retry(n)
+					}
+				} else {
+					err = world.Deliver(n, &bad, "vertex with a seal that does not recompute")
+				}
+				world.EvalFor("C09", 1)
+				w.R.Count("c09_forged_seals_offered", 1)
+				world.NontrivFor("C09", fmt.Sprintf("forged-seal/%s/%s/%s/refused=%v", kind, al.name, entry, err != nil))
+				held := false
+				for h, l := range n.Prev.Live {
+					if h == bad.Hash || l.V.Transaction.Hash == t.Hash {
+						held = true
+					}
+				}
+				if held {
+					world.Violate("C09", "not-self-authenticating/forged-seal-admitted/"+al.name, fmt.Sprintf("a vertex carrying a %s transaction whose %s was altered after sealing (entry %s, answer %v) is in the ledger", kind, al.name, entry, err))
+				}
+				// the genuine vertex afterwards keeps the ledger growing
+				world.Deliver(n, &good, "the genuine vertex")
+			}
+		}
+	}
+}
